@@ -62,6 +62,7 @@ type presentation struct {
 	expect     string
 	history    []string
 	skip       int // adapter calls made during the history
+	lateUpdate bool
 	levelMoved bool
 }
 
@@ -115,8 +116,9 @@ func presentHistory(st handState, id string, gi int, r *choose.SplitMix, actTime
 		}
 		n = len(script) + r.Intn(4)
 	}
+	pending := false // a request with a long thinking time is waiting to be overtaken
 	for i := 0; i < n; i++ {
-		op := []int{0, 0, 0, 1, 2, 3, 3, 3, 3, 5}[r.Intn(10)]
+		op := []int{0, 0, 0, 1, 2, 3, 3, 3, 3, 5, 6, 6}[r.Intn(12)]
 		if i < len(script) {
 			op = script[i]
 		}
@@ -150,6 +152,24 @@ func presentHistory(st handState, id string, gi int, r *choose.SplitMix, actTime
 			pr.Ready() // a manual action (the recording adapter accepts anything)
 			m.n = 0
 			p.history = append(p.history, "manual-action")
+		case 6:
+			// a request with a long thinking time that is overtaken by the next request before
+			// it runs out (the player answered by himself, or the hand moved on): the player was
+			// not given the time, so it is not a missed turn and counts towards nothing
+			view := cloneT(st.Table)
+			view.Meta.ActionTime = 30
+			stamp++
+			view.State.GameState.UpdatedAt = stamp
+			p.ad.UpdateTableState(view)
+			p.history = append(p.history, "request-overtaken")
+			pending = true
+			continue
+		}
+		if pending && (op == 3 || op == 4) {
+			// the overtaken request's timer is cancelled on a goroutine of its own; requests are
+			// milliseconds apart in reality, so let it finish before the history goes on
+			time.Sleep(time.Millisecond)
+			pending = false
 		}
 	}
 	p.skip = len(p.ad.Calls())
@@ -161,6 +181,30 @@ func presentHistory(st handState, id string, gi int, r *choose.SplitMix, actTime
 		p.expect = "either" // suspended by count: the statement does not fix the threshold semantics
 	default:
 		p.expect = "wait"
+	}
+	if pending {
+		// overtake the waiting request with one that times out at once (not judged), and give
+		// the cancelled timer's goroutine its turn before the judged request is presented
+		view := cloneT(st.Table)
+		view.Meta.ActionTime = 0
+		stamp++
+		view.State.GameState.UpdatedAt = stamp
+		p.ad.UpdateTableState(view)
+		if m.st == "idle" {
+			m.idle()
+		}
+		p.history = append(p.history, "request-timed-out")
+		time.Sleep(time.Millisecond)
+		p.skip = len(p.ad.Calls())
+		p.status = m.st
+		switch {
+		case m.st == "suspended" && m.explicit:
+			p.expect = "now"
+		case m.st == "suspended":
+			p.expect = "either"
+		default:
+			p.expect = "wait"
+		}
 	}
 	view := cloneT(st.Table)
 	view.Meta.ActionTime = actTime
@@ -372,6 +416,23 @@ func TestC19Timed(t *testing.T) {
 						p = presentHistory(st, id, gi, r, at)
 					} else {
 						p = present(st, id, gi, status, at)
+						if pl != nil && len(pl.AllowedActions) > 0 && !has(pl.AllowedActions, "pass") && st.Table.State.Status == pokertable.TableStateStatus_TableGamePlaying && r.Intn(3) == 0 {
+							// 300 ms into the thinking time the table publishes the hand again without a
+							// request for this player (as after he answered by himself, or a table-level
+							// event): the runner is not asked anew, and when the time of the request it
+							// was armed for runs out it still owes that request's conservative answer
+							late := cloneT(st.Table)
+							late.Meta.ActionTime = at
+							late.State.GameState.UpdatedAt++
+							if lp := late.State.GameState.GetPlayer(gi); lp != nil {
+								lp.AllowedActions = nil
+							}
+							p.lateUpdate = true
+							go func(p *presentation) {
+								time.Sleep(300 * time.Millisecond)
+								p.ad.UpdateTableState(late)
+							}(p)
+						}
 					}
 					mu.Lock()
 					ps = append(ps, p)
@@ -409,6 +470,15 @@ func TestC19Timed(t *testing.T) {
 				if p.history[i] == "Idle()" && p.history[i-1] == "request-timed-out" {
 					ls = append(ls, "history_idle_call_after_timeouts")
 				}
+			}
+		}
+		if p.lateUpdate {
+			ls = append(ls, "late_update_without_request")
+		}
+		for _, h := range p.history {
+			if h == "request-overtaken" {
+				ls = append(ls, "history_request_overtaken")
+				break
 			}
 		}
 		if p.expected != "" {
